@@ -166,6 +166,7 @@ class Exec:
         self.pc = []
         self.pending = []
         self.consumed = []
+        self.pc_tag = {}
         self.pure = False
         self._qmemo = {}
         self._pcsat = {}
@@ -278,8 +279,22 @@ class Exec:
         self.taken.append(d)
         return d
 
-    def assume(self, cond):
+    def assume(self, cond, tag=None):
         self.pc.append(cond)
+        if tag is not None:
+            self.pc_tag[id(cond)] = (tag, cond)
+
+    def forget_invariants(self, keep):
+        """Drop the invariant assumptions of *earlier* loops from the path condition (sound: fewer
+        hypotheses).  Used at the cut of a loop whose own invariant is self-contained, so that facts
+        about states that no longer exist do not slow the solver down."""
+        out = []
+        for f in self.pc:
+            t = self.pc_tag.get(id(f))
+            if t is not None and t[1] is f and t[0] != keep:
+                continue
+            out.append(f)
+        self.pc = out
 
     def prove(self, name, clause, props, goal, where, kind):
         if not self.emitting():
@@ -523,6 +538,9 @@ class Exec:
             return VSet(c.fresh(name, c.SetId))
         if ty == "fset":
             return VSet(c.fresh(name, c.SetId), frozen=True)
+        if ty == "pydict":
+            # the dict base object of an IDDict: plain dict semantics (KeyError on a missing key)
+            return VDict("dict", "val", c.fresh(name + "_k", c.SetId), {"v": c.fresh(name + "_v", c.MapVal)})
         raise Unsupported("param type %s" % ty)
 
     # ------------------------------------------------------------------ model extraction (mode g)
@@ -838,7 +856,7 @@ class Exec:
             if isinstance(cur, VSet) and not cur.frozen and isinstance(st.op, (ast.BitOr, ast.Sub, ast.BitAnd)):
                 a, b = cur.get(), self.tset(rhs)
                 c = self.c
-                r = c.union(a, b) if isinstance(st.op, ast.BitOr) else c.diff(a, b) if isinstance(st.op, ast.Sub) else c.inter(a, b)
+                r = c.set_op("union" if isinstance(st.op, ast.BitOr) else "diff" if isinstance(st.op, ast.Sub) else "inter", a, b)
                 cur.put(r)
                 return
             if isinstance(cur, VList) and isinstance(st.op, ast.Add):
@@ -1104,6 +1122,8 @@ class Exec:
         self.prove_groups(lname + "/entry", "loop-entry", inv(c.EMPTY, None, "entry"), h)
         which = self.choose(2)
         self.havoc_for_loop(node, env, lspec)
+        if getattr(lspec, "forget", False):
+            self.forget_invariants(lname)
         # iterating a live table: its key set is part of the havocked state; the content we iterate is
         # the key set at loop entry only if the body does not resize it (checked at step).
         live = kind in ("dictkeys", "items", "values")
@@ -1120,7 +1140,7 @@ class Exec:
                 self.assume(z3.Implies(c.elems_hashable(src.term), c.hashable(x)))
             else:
                 self.assume(c.hashable(x))  # elements of sets / dict keys are hashable
-            self.assume_groups(inv(done, x))
+            self.assume_groups(inv(done, x), lname)
             self.bind_loop_var(node, kind, src, x, env)
             headK = LoopCtx(self, self.A, self.nets, done, content, x, None, env, distinct)
             head_holder["snap"] = headK.snap
@@ -1145,7 +1165,7 @@ class Exec:
                 self.prove_groups(lname + "/step-post", "loop-step-post", self.inv_groups(lspec.post(c, self.A, K)), h)
             raise PathEnd()
         else:
-            self.assume_groups(inv(content))
+            self.assume_groups(inv(content), lname)
             return
 
     def list_extend(self, lst, other):
@@ -1193,7 +1213,9 @@ class Exec:
 
         self.prove_groups(lname + "/entry", "loop-entry", inv(), h)
         self.havoc_for_loop(node, env, lspec)
-        self.assume_groups(inv())
+        if getattr(lspec, "forget", False):
+            self.forget_invariants(lname)
+        self.assume_groups(inv(), lname)
         fsnap = self.frame_snapshot(lspec, env)
         if not self.cond(node.test, env):
             return
@@ -1217,10 +1239,10 @@ class Exec:
             return r
         return [("inv", tuple(sorted(self.spec.props)), r)]
 
-    def assume_groups(self, groups):
+    def assume_groups(self, groups, tag=None):
         for label, _, f in groups:
             if not label.startswith("hint:"):
-                self.assume(f)
+                self.assume(f, tag)
 
     def prove_groups(self, name, kind, groups, h):
         """Groups labelled `hint:*` are lemmas: proved first (as obligations of their own) and, when
@@ -1396,11 +1418,11 @@ class Exec:
         if isinstance(a, VSet) and isinstance(b, VSet):
             x, y = a.get(), b.get()
             if isinstance(op, ast.BitAnd):
-                return VSet(c.inter(x, y), frozen=a.frozen)
+                return VSet(c.set_op("inter", x, y), frozen=a.frozen)
             if isinstance(op, ast.BitOr):
-                return VSet(c.union(x, y), frozen=a.frozen)
+                return VSet(c.set_op("union", x, y), frozen=a.frozen)
             if isinstance(op, ast.Sub):
-                return VSet(c.diff(x, y), frozen=a.frozen)
+                return VSet(c.set_op("diff", x, y), frozen=a.frozen)
         if isinstance(a, (VInt, VBool)) and isinstance(b, (VInt, VBool)):
             x, y = self.tint(a), self.tint(b)
             if isinstance(op, ast.Add):
@@ -1580,6 +1602,8 @@ class Exec:
             return VBound(obj, name)
         if isinstance(obj, VModule):
             return VBuiltin(obj.name + "." + name)
+        if isinstance(obj, VBuiltin) and obj.name == "dict" and name in ("__getitem__", "__setitem__", "__delitem__"):
+            return VBuiltin("dict." + name)
         if isinstance(obj, (VSet, VDict, VAttr, VList, VVal, VRec, VView, VFloat, VDictKeys, VDictItems, VDictValues, VStr, VTuple, VCounter)):
             return VBound(obj, name)
         raise Unsupported("attribute %s of %s" % (name, type(obj).__name__))
@@ -1965,6 +1989,10 @@ class Exec:
                                    z3.Not(c.is_dict(t)),
                                    c.hashable(t) == z3.BoolVal(bool(v.frozen))))
                 return VVal(t)
+            if isinstance(v, VRange):
+                return self.range_val(v)
+            if isinstance(v, (VBuiltin, VClassRef, VClosure, VExcClass)):
+                return VVal(c.fresh_id("callable"))
             if isinstance(v, (VGen, VList, VDictKeys, VDictItems, VDictValues, VIter, VView, VDict)):
                 return self.abstract_iterable(v)
             raise Unsupported("argument %s=%s for %s" % (name, type(v).__name__, spec.qual))
@@ -1984,6 +2012,17 @@ class Exec:
                 return VSet(c.content(v.term), frozen=True)
             raise Unsupported("argument %s=%s for %s" % (name, type(v).__name__, spec.qual))
         raise Unsupported("param type %s" % ty)
+
+    def range_val(self, r):
+        """range(lo, hi): a re-iterable sequence of the ints lo..hi-1 (step 1 only)."""
+        c = self.c
+        t = c.fresh_id("range")
+        lo, hi = r.lo, r.hi
+        self.assume(z3.And(c.iterable(t), z3.Not(c.one_shot(t)), c.elems_hashable(t), t != c.NONE, z3.Not(c.intlike(t)),
+                           z3.Not(c.is_str(t)), z3.Not(c.is_dict(t)), z3.Not(c.is_tuple(t)), z3.Not(c.is_list(t)),
+                           c.len_of(t) == z3.If(hi > lo, hi - lo, 0),
+                           c.forall(["id"], lambda x: z3.Select(c.content(t), x) == z3.And(c.is_int(x), c.int_of(x) >= lo, c.int_of(x) < hi))))
+        return VVal(t)
 
     def abstract_iterable(self, v):
         """An executor object passed where the callee's contract sees an abstract Val.
